@@ -155,6 +155,7 @@ type bObs struct {
 	CanonSame    bool            `json:"canon_same"`    // identical to the build with the adds in canonical order
 	DirsOK       bool            `json:"dirs_ok"`       // same content <=> same directory
 	ConcSame     bool            `json:"conc_same"`     // concurrent Add calls give the same bundle as sequential ones
+	ConcWhy      string          `json:"conc_why"`
 	Gamma        int64           `json:"gamma"`
 	Manifest     string          `json:"manifest_sha"`
 	Panic        string          `json:"panic"`
@@ -779,7 +780,7 @@ func (e *bEnv) buildConcurrent(adds []bAdd) *sourcebundle.Bundle {
 	if err != nil {
 		return nil
 	}
-	ctx := context.Background()
+	ctx := e.tracer().OnContext(context.Background())
 	var wg sync.WaitGroup
 	var failed int32
 	for _, a := range adds {
@@ -1180,6 +1181,7 @@ func builderMain() int {
 						sha3, _ := manifestOf(e3.dir)
 						if b3 == nil || sha3 != sha || len(e3.obs.Unscripted) != 0 {
 							obs.ConcSame = false
+							obs.ConcWhy = fmt.Sprintf("bundle=%v manifest %s vs %s unscripted=%v", b3 != nil, sha3, sha, e3.obs.Unscripted)
 						}
 					}
 				}
